@@ -46,7 +46,82 @@ func ptrEscapes(p ssa.Value, seen map[ssa.Value]bool) bool {
 					}
 				}
 			}
-			// the closure value itself may be called, deferred or spawned anywhere: its body was checked above
+			// the body does not leak the pointer (checked above), but it may write through it: then whoever
+			// can call the closure can change the cell, so the closure value must not leave the function
+			for i, b := range x.Bindings {
+				if b == p && i < len(fn.FreeVars) && writesThrough(fn.FreeVars[i], map[ssa.Value]bool{}) && closureValueEscapes(x) {
+					return true
+				}
+			}
+		default:
+			return true
+		}
+	}
+	return false
+}
+
+// writesThrough: some instruction stores through pointer p (or a field/element address derived from it, or a
+// nested closure capturing it does).
+func writesThrough(p ssa.Value, seen map[ssa.Value]bool) bool {
+	if seen[p] {
+		return false
+	}
+	seen[p] = true
+	refs := p.Referrers()
+	if refs == nil {
+		return true
+	}
+	for _, r := range *refs {
+		switch x := r.(type) {
+		case *ssa.Store:
+			if x.Addr == p {
+				return true
+			}
+		case *ssa.FieldAddr:
+			if writesThrough(x, seen) {
+				return true
+			}
+		case *ssa.IndexAddr:
+			if writesThrough(x, seen) {
+				return true
+			}
+		case *ssa.MakeClosure:
+			fn, ok := x.Fn.(*ssa.Function)
+			if !ok {
+				return true
+			}
+			for i, b := range x.Bindings {
+				if b == p && (i >= len(fn.FreeVars) || writesThrough(fn.FreeVars[i], seen)) {
+					return true
+				}
+			}
+		}
+	}
+	return false
+}
+
+// closureValueEscapes: the closure is used other than by being called (or deferred) directly where it is made.
+func closureValueEscapes(mc *ssa.MakeClosure) bool {
+	refs := mc.Referrers()
+	if refs == nil {
+		return true
+	}
+	for _, r := range *refs {
+		switch x := r.(type) {
+		case *ssa.DebugRef:
+		case *ssa.Call:
+			if x.Call.Value != ssa.Value(mc) {
+				return true
+			}
+			for _, a := range x.Call.Args {
+				if a == ssa.Value(mc) {
+					return true
+				}
+			}
+		case *ssa.Defer:
+			if x.Call.Value != ssa.Value(mc) {
+				return true
+			}
 		default:
 			return true
 		}
